@@ -26,7 +26,7 @@ FAULT_KINDS = ["gen_close", "gen_abandon", "gen_throw", "rng_raise", "rng_interr
 
 
 def plan(tier):
-    return 700 if tier == "quick" else 12000
+    return 1600 if tier == "quick" else 20000
 
 
 def spec_from_seed(run_seed, tier):
